@@ -90,16 +90,20 @@ def main():
 def finish(res, sid, sdir, patch_now):
     d = os.path.join(VERIF, "seeded", sid)
     os.makedirs(d, exist_ok=True)
+    same = os.path.abspath(sdir) == os.path.abspath(d)
     if patch_now:
         open(os.path.join(d, "patch.diff"), "w").write(patch_now)
-    else:
+    elif not same:
         shutil.copy(os.path.join(sdir, "patch.diff"), os.path.join(d, "patch.diff"))
-    shutil.copy(os.path.join(sdir, "demo_test.go"), os.path.join(d, "demo_test.go"))
+    if not same:
+        shutil.copy(os.path.join(sdir, "demo_test.go"), os.path.join(d, "demo_test.go"))
     meta = {}
     try:
         meta = json.load(open(os.path.join(sdir, "meta.json")))
     except Exception:
         pass
+    if "confirmed" in meta and "breaks" in meta:  # re-verification of an already stored seed
+        meta = dict(summary=meta.get("breaks"), needs_to_manifest=meta.get("needs_to_manifest"), how_to_run_demo=meta.get("how_to_run_demo"))
     out = dict(property=res["property"], breaks=meta.get("summary"), needs_to_manifest=meta.get("needs_to_manifest"),
                how_to_run_demo=meta.get("how_to_run_demo"), author="independent sub-agent (given only the property text and a scratch worktree)",
                confirmed=res)
